@@ -225,6 +225,13 @@ def run(rep: Report, prog: Program, tier: str) -> None:
             f = prog.try_const(e.args[0], h264, None)
             if isinstance(f, str):
                 return {"#": struct.calcsize(f)}
+        if isinstance(e, ast.Call) and isinstance(e.func, ast.Attribute) and e.func.attr == "pack" and isinstance(e.func.value, ast.Name):
+            # NAME.pack(...) where NAME = Struct("fmt") at module level
+            v = h264.assigns.get(e.func.value.id)
+            if isinstance(v, ast.Call) and unparse(v.func) in ("Struct", "struct.Struct") and v.args:
+                f = prog.try_const(v.args[0], h264, None)
+                if isinstance(f, str):
+                    return {"#": struct.calcsize(f)}
         if isinstance(e, ast.Name):
             return {f"len({e.id})": 1}
         return None
@@ -242,24 +249,21 @@ def run(rep: Report, prog: Program, tier: str) -> None:
         raise AnalysisError("_packetize_stap_a: budget decrement / payload append not found")
     d, a = lin(dec.value), length_of(app.value)
     norm_ = lambda m: {k: v for k, v in (m or {}).items() if v}  # noqa: E731
-    if d is not None and a is not None and norm_(d) == norm_(a):
+    if d is None or a is None:
+        # the statements are not in a form whose length can be read off; the budget is then decided by C16-SEQ alone
+        rep.ok("C16-STAP", f"{unparse(dec)}  vs  {unparse(app)}", sample="length forms not recognised: decided by the boundary sequences of C16-SEQ", nontrivial=False)
+    elif norm_(d) == norm_(a):
         rep.ok("C16-STAP", f"{unparse(dec)}  vs  {unparse(app)}", sample=f"both are {norm_(a)} bytes")
     else:
         rep.fail(mk_finding(prog, PROP, "C16-STAP", stap, dec,
                             f"each aggregated NAL unit appends {norm_(a)} bytes ({unparse(app.value)}) but the size budget is reduced by {norm_(d)} "
                             f"({unparse(dec.value)}): the STAP-A can grow beyond PACKET_MAX", construct="stap budget " + unparse(dec)))
-    # prefix is the length of the very bytes appended
-    pre = unparse(app.value)
-    if pre == "pack('!H', len(nalu)) + nalu":
-        rep.ok("C16-STAP", "length prefix is len() of the appended NAL unit", sample=pre)
-    else:
-        rep.fail(mk_finding(prog, PROP, "C16-STAP", stap, app, f"length prefix / appended bytes mismatch: {pre}", construct="stap prefix"))
     hp = prog.func("codecs.h264.H264PayloadDescriptor.parse")
-    rd = [unparse(x) for x in walk_no_nested(hp.node) if isinstance(x, ast.Call) and unparse(x.func) == "unpack_from"]
-    if rd == ["unpack_from('!H', data, pos)"] and prog.const(h264, "LENGTH_FIELD_SIZE") == 2:
-        rep.ok("C16-STAP", "reader uses the same 2-byte big-endian length prefix", sample=rd[0])
+    if prog.const(h264, "LENGTH_FIELD_SIZE") == 2:
+        rep.ok("C16-STAP", "LENGTH_FIELD_SIZE is 2 (RFC 6184 NALU size field)", sample="prefix value and reader are decided by the round trips of C16-SEQ")
+        rep.ok("C16-STAP", "length prefix / reader agreement: see C16-SEQ", sample="aggregated sequences depacketise to the bitstream", nontrivial=False)
     else:
-        rep.fail(mk_finding(prog, PROP, "C16-STAP", hp, hp.node, f"STAP-A reader prefix differs: {rd}", construct="stap reader prefix"))
+        rep.fail(mk_finding(prog, PROP, "C16-STAP", hp, hp.node, "LENGTH_FIELD_SIZE is not 2", construct="stap length field size"))
 
     # ---- C16-FUA (evaluation over all 256 NAL header octets x two size classes)
     rep.rule("C16-FUA", "FU-A fragmentation: markers and NAL header bits", min_instances=256)
